@@ -180,13 +180,12 @@ def step (s : IncVal) (toks : List String) : IncVal × String :=
   | ["clean"] => (s.clean, "ok")
   | _ => (s, "bad-op")
 
-/-- family stateful: genesis transactions are ids 0..n-1, transactions outside the ledger are ids 1000+i. -/
+/-- family stateful: the ledger is the set of transactions of the committed blocks. -/
 def stepStateful (l : List TxId) (toks : List String) : List TxId × String :=
   match toks with
-  | ["ledger", n] => (List.range (Proto.natOf n), "ok")
-  | ["check", kind, i] =>
-    let tx := if kind == "g" then Proto.natOf i else 1000 + Proto.natOf i
-    (l, match statefulCheck l tx with | .dup => "dup" | _ => "ok")
+  | ["ledger"] => ([], "ok")
+  | "commit" :: _ :: txs => (l ++ txs.map Proto.natOf, "ok")
+  | ["check", i] => (l, match statefulCheck l (Proto.natOf i) with | .dup => "dup" | _ => "ok")
   | _ => (l, "bad-op")
 
 end IncValDrv
